@@ -8,7 +8,7 @@ import numpy as np
 import pandas as pd
 
 from harness import gen
-from harness.common import drv, guarded, run_check
+from harness.common import drv, guarded, impl, run_check
 
 PID = "C20"
 THEOREMS = ["binnify_eq_spec", "tilingSpec_get", "tilingSpec_last_stop", "getBinsize_truthful",
@@ -42,19 +42,19 @@ def worker_init():
 def _binnify(case):
     sizes, b = case["sizes"], case["b"]
     cs = pd.Series(sizes, index=[gen.chromname(c) for c in range(len(sizes))], dtype=np.int64)
-    df = util.binnify(cs, b)
-    impl = gen.df_bins(df, list(cs.index))
+    df = impl(util.binnify, cs, b)
+    got = gen.df_bins(df, list(cs.index))
     cats = [str(x) for x in df["chrom"].cat.categories]
     m = drv().ask("C20.binnify", sizes=sizes, b=b)
     assert m["model"] == m["spec"], "L1 != L0: theorem binnify_eq_spec contradicted"
-    if impl != m["model"] or cats != list(cs.index):
-        return {"mismatch": True, "impl": impl, "model": m["model"], "categories": cats}
+    if got != m["model"] or cats != list(cs.index):
+        return {"mismatch": True, "impl": got, "model": m["model"], "categories": cats}
     return None
 
 
 def _impl_binsize(bins):
     df = gen.bins_df(bins)
-    r = util.get_binsize(df)
+    r = impl(util.get_binsize, df)
     return None if r is None else int(r)
 
 
@@ -82,12 +82,12 @@ def _binsize_unit(case):
 def _chromsizes(case):
     bins = case["bins"]
     df = gen.bins_df(bins)
-    cs = util.get_chromsizes(df)
+    cs = impl(util.get_chromsizes, df)
     names = [gen.chromname(c) for c in range(max(b[0] for b in bins) + 1)]
-    impl = [[names.index(str(k)), int(v)] for k, v in cs.items()]
+    got = [[names.index(str(k)), int(v)] for k, v in cs.items()]
     m = drv().ask("C20.bininfo", bins=bins)
-    if impl != m["chromsizes"]:
-        return {"mismatch": True, "impl": impl, "model": m["chromsizes"]}
+    if got != m["chromsizes"]:
+        return {"mismatch": True, "impl": got, "model": m["chromsizes"]}
     if m["valid"] and sorted(m["chromsizes"]) != sorted(m["group_last_stops"]):
         raise AssertionError("L1 != L0 for getChromsizes")
     return None
@@ -106,15 +106,15 @@ def _makebins_cli(case):
     if r.exit_code != 0:
         return {"mismatch": True, "impl": f"exit {r.exit_code}", "output": r.output[-300:]}
     rows = [l.split("\t") for l in r.output.strip().splitlines() if l]
-    impl = [[int(c[1:]), int(s), int(e)] for c, s, e in rows]
+    got = [[int(c[1:]), int(s), int(e)] for c, s, e in rows]
     m = drv().ask("C20.binnify", sizes=sizes, b=b)
     # parse_bins route as well
     from cooler.cli._util import parse_bins
-    cs2, bins2 = parse_bins(f"{p}:{b}")
-    impl2 = gen.df_bins(bins2, [gen.chromname(c) for c in range(len(sizes))])
+    cs2, bins2 = impl(parse_bins, f"{p}:{b}")
+    got2 = gen.df_bins(bins2, [gen.chromname(c) for c in range(len(sizes))])
     os.unlink(p)
-    if impl != m["model"] or impl2 != m["model"] or [int(x) for x in cs2.values] != sizes:
-        return {"mismatch": True, "impl_cli": impl, "impl_parse_bins": impl2, "model": m["model"]}
+    if got != m["model"] or got2 != m["model"] or [int(x) for x in cs2.values] != sizes:
+        return {"mismatch": True, "impl_cli": got, "impl_parse_bins": got2, "model": m["model"]}
     return None
 
 
@@ -124,10 +124,10 @@ def _cooler_binsize(case):
     p = os.path.join(gen.tmpdir(), f"b-{os.getpid()}.cool")
     px = pd.DataFrame({"bin1_id": np.array([0], dtype=np.int64), "bin2_id": np.array([0], dtype=np.int64),
                        "count": np.array([1], dtype=np.int32)})
-    cooler.create_cooler(p, df, px)
-    c = cooler.Cooler(p)
-    info = c.info
-    b = c.binsize
+    impl(cooler.create_cooler, p, df, px)
+    c = impl(cooler.Cooler, p)
+    info = impl(lambda: c.info)
+    b = impl(lambda: c.binsize)
     b = None if b is None else int(b)
     os.unlink(p)
     bt = info["bin-type"]
